@@ -48,6 +48,7 @@ func abnormal(s *verifsim.Sim, what string) *Violation {
 // danglingLinks: paths that garbage() turned into dangling symbolic links; healing removes
 // the links before the files are written again (a write would go through the link).
 var danglingLinks []string
+var garbageLinks, garbageFiles int
 
 func healLinks(d *verifsim.Disk) {
 	for _, l := range danglingLinks {
@@ -78,6 +79,7 @@ func garbage(g G, p *Project, d *verifsim.Disk, tape *verifsim.Tape) []string {
 			d.Symlink(target, p.Root+"/"+k)
 			danglingLinks = append(danglingLinks, p.Root+"/"+k)
 			out = append(out, fmt.Sprintf("dangling-symlink(%s) %s", target, k))
+			garbageLinks++
 			continue
 		}
 		c, how := verifsim.Corrupt(tape, []byte(files[k]))
@@ -87,6 +89,7 @@ func garbage(g G, p *Project, d *verifsim.Disk, tape *verifsim.Tape) []string {
 		}
 		d.PutFile(p.Root+"/"+k, c, g.n(2) == 0)
 		out = append(out, fmt.Sprintf("corrupt(%s) %s", how, k))
+		garbageFiles++
 	}
 	return out
 }
@@ -191,6 +194,7 @@ func scenarioC16(rc *RunCtx) *Violation {
 			}
 			if strings.Contains(errTexts(r), "The build was canceled") {
 				rc.Probe("cancel_during_build")
+				rc.Stats.Faults["cancellation_during_build"]++
 			}
 		}
 		if len(results) > 0 {
@@ -263,6 +267,7 @@ func scenarioC16(rc *RunCtx) *Violation {
 			}
 			if strings.Contains(errTexts(faulted), "The build was canceled") {
 				rc.Probe("cancel_during_build")
+				rc.Stats.Faults["cancellation_during_build"]++
 			}
 			if class, detail := refC.Diff(MakeCanon(after, p.Root)); class != "" {
 				return &Violation{Class: "unusable-after-faults-" + class, Key: class,
@@ -287,6 +292,9 @@ func scenarioC16(rc *RunCtx) *Violation {
 	cfg.ExtraEdit = func(step int, pp *Project, dd *verifsim.Disk) string {
 		if step%2 == 1 {
 			es := garbage(g, pp, dd, ftape)
+			rc.Stats.Faults["garbage_written_over_input"] += garbageFiles
+			rc.Stats.Faults["input_replaced_by_dangling_symlink"] += garbageLinks
+			garbageFiles, garbageLinks = 0, 0
 			notes = append(notes, es...)
 			return strings.Join(es, ", ")
 		}
@@ -338,6 +346,7 @@ func scenarioC16(rc *RunCtx) *Violation {
 		}
 		if strings.Contains(errTexts(r.Res), "The build was canceled") {
 			rc.Probe("cancel_during_build")
+				rc.Stats.Faults["cancellation_during_build"]++
 		}
 		if r.Step%2 == 1 || r.Faulted {
 			if len(r.Res.Errors) > 0 {
